@@ -449,18 +449,40 @@ def c01_object(rep, crate, cfg):
             rep.check(ok, R1, f.key, "truncate-to-transfer-length", where,
                       "every Some(result) of %s is cut to exactly transfer_length() bytes on the way to the return" % k.split("::")[-1],
                       {"length_ops": [(e["sink"], fmt(e["args"][1])[:80]) for e in tr]}, cfg)
-            # concatenation: one extend per block, iterating self.blocks in index order
-            ex = [e for e in ls.events if e["sink"] in ("extend", "extend_from_slice") and N(e["args"][0]) == N(("ref", buf))]
-            okx = len(ex) == 1 and ex[0]["loop"] is not None
+            # concatenation: the result, before it is cut, is the blocks' bytes in index order (comprehension normal form)
+            from .. import seqs
+            BL = fld(i_blocks)
+            seqs.OPTION_BASES.add(BL)
+
+            def sink_seq(ct, t):
+                if ct[0] == "call" and isinstance(ct[1], str):
+                    if ct[1].endswith("Vec::<T, A>::push"):
+                        return "push"
+                    if ct[1].split("::")[-1] in ("extend", "extend_from_slice"):
+                        return "extend"
+                return None
+            ls2 = loops.LoopSummary(f, sink_seq)
+            buf2 = ls2.canon(ls2.tb.operand(sb, None, {"o": "copy", "l": 0, "proj": []})) if False else ls.canon(buf)
+            segs, problems = seqs.segments_of_value(crate, f, ls2, buf2, lambda blk_: conds_of(ls2, blk_))
+            segs = [seqs.norm_seg(g) for g in segs]
+            detc = {"segments": [{"count": fmt(g["count"])[:60], "cond": fmt(g["cond"])[:80] if g["cond"] else None,
+                                  "inner": [{"count": fmt(x["count"])[:80], "value": fmt(x["value"])[:100]} for x in g.get("inner", [])]}
+                                 for g in segs], "problems": problems}
+            okx = not problems and len(segs) == 1 and segs[0]["count"] == ("len", BL) and "inner" in segs[0] and len(segs[0]["inner"]) == 1
             if okx:
-                lp = ls.loops[ex[0]["loop"]]
-                src = lp["source"]
-                base = N(("call", "std::slice::<impl [T]>::iter", (("deref*", ("ref", fld(i_blocks))),)))
-                okx = N(src) in (N(("call", "std::iter::Iterator::flatten", (base,))), base) and \
-                    N(ex[0]["args"][1]) in (("item", ex[0]["loop"]), ("deref", ("item", ex[0]["loop"])))
+                BLK = ("index", BL, seqs.IXO)
+                SOME = ("field", ("variant", BLK, "Some"), 0)
+                g = segs[0]
+                inner = g["inner"][0]
+                cond_ok = g["cond"] is None or g["cond"] == ("is-some", BLK)
+                vec = seqs._strip_refs(inner["count"][1]) if inner["count"][0] == "len" else None
+                okx = cond_ok and inner["cond"] is None and vec in (SOME, BLK) and \
+                    seqs._strip_refs(inner["value"]) == ("index", vec, seqs.IX)
+                if vec == BLK:
+                    okx = False      # extending by an Option itself is not the block's bytes
             rep.check(okx, R4, f.key, "concatenation-order", where,
                       "the result is the concatenation of self.blocks in index order (no reversal, no sorting, each block once)",
-                      {"loop_source": fmt(ls.loops[ex[0]["loop"]]["source"])[:160] if ex and ex[0]["loop"] is not None else None}, cfg)
+                      detc, cfg)
             # None while any block is missing
             how = completeness_test(crate, f, ls, i_blocks, sb)
             rep.check(how is not None, R1, f.key, "none-while-incomplete", where,
@@ -470,31 +492,50 @@ def c01_object(rep, crate, cfg):
     # block decoders are created in ascending block-number order, indexed by the packet's SBN
     newf = [f for k, f in crate.fns.items() if f.f.get("impl_self", {}).get("adt") == p and k.endswith("::new")]
     for f in newf:
+        from .. import seqs
+
         def sink2(ct, t):
-            if ct[0] == "call" and isinstance(ct[1], str) and (ct[1].endswith("Vec::<T, A>::push") or ct[1].endswith("SourceBlockDecoder::new")):
-                return ct[1].split("::")[-1]
+            if ct[0] == "call" and isinstance(ct[1], str):
+                if ct[1].endswith("Vec::<T, A>::push"):
+                    return "push"
+                if ct[1].split("::")[-1] == "extend":
+                    return "extend"
             return None
         ls = loops.LoopSummary(f, sink2)
-        news = [e for e in ls.events if e["sink"] == "new"]
-        ok = len(news) == 2 and all(e["loop"] is not None for e in news)
+        # the vector stored as the decoder list of the constructed object, in comprehension normal form
+        vec = None
+        for blk in f.blocks:
+            if blk["cleanup"] or blk["i"] not in f.cfg.reach:
+                continue
+            for si, st in enumerate(blk["stmts"]):
+                if st["s"] == "assign" and st["rv"]["r"] == "aggregate" and st["rv"].get("adt") == p:
+                    for fl, o in zip(st["rv"]["fields"], st["rv"]["ops"]):
+                        if "SourceBlockDecoder" in str(o.get("ty", "")) and o.get("o") in ("move", "copy"):
+                            vec = ls.canon(ls.tb.operand(blk["i"], si, o))
+        ok = vec is not None
+        det = {}
         if ok:
-            l0, l1 = ls.loops[news[0]["loop"]], ls.loops[news[1]["loop"]]
-            part = ("call", "base::partition", V("a"))
-            s0, s1 = N(l0["source"]), N(l1["source"])
-            m0 = match(("agg", "adt:std::ops::Range", (("const", 0), ("field", V("p"), 2))), s0)
-            m1 = match(("agg", "adt:std::ops::Range", (("field", V("p"), 2), ("op", "Add", ("field", V("p"), 2), ("field", V("p"), 3)))), s1) or \
-                match(("agg", "adt:std::ops::Range", (("field", V("p"), 2), ("op", "Add", ("field", V("p"), 3), ("field", V("p"), 2)))), s1)
-            ok = m0 is not None and m1 is not None and m0["p"] == m1["p"] and \
-                N(news[0]["args"][0]) == ("item", news[0]["loop"]) and N(news[1]["args"][0]) == ("item", news[1]["loop"])
+            segs, problems = seqs.segments_of_value(crate, f, ls, vec, lambda blk_: conds_of(ls, blk_))
+            segs = [seqs.norm_seg(g) for g in segs]
+            det = {"segments": [{"count": fmt(g["count"])[:60], "value": fmt(g["value"])[:160]} for g in segs], "problems": problems}
+            IX = seqs.IX
+            ok = not problems and len(segs) == 2 and all(g["cond"] is None for g in segs)
             if ok:
-                # sizes: KL for the first ZL blocks, KS for the rest
+                NEW = lambda g: match(("call", V("c", lambda x: isinstance(x, str) and x.endswith("SourceBlockDecoder::new")), (V("sbn"), V("cfg"), V("len"))), g["value"])
+                n0, n1 = NEW(segs[0]), NEW(segs[1])
+                ok = n0 is not None and n1 is not None
+            if ok:
+                PART = V("p", lambda x: x[0] == "call" and isinstance(x[1], str) and x[1].endswith("base::partition"))
+                m0 = match(("field", PART, 2), segs[0]["count"])
+                ok = m0 is not None and segs[1]["count"] == ("field", m0["p"], 3)
+            if ok:
+                pt = m0["p"]
                 T = ("call", "base::ObjectTransmissionInformation::symbol_size", (("ref", P(1)),))
-                want0 = N(("op", "Mul", ("field", m0["p"], 0), T))
-                want1 = N(("op", "Mul", ("field", m0["p"], 1), T))
-                ok = N(news[0]["args"][2]) == want0 and N(news[1]["args"][2]) == want1
+                ok = N(n0["sbn"]) == IX and N(n1["sbn"]) == N(("op", "Add", ("field", pt, 2), IX)) and \
+                    N(n0["len"]) == N(("op", "Mul", ("field", pt, 0), T)) and N(n1["len"]) == N(("op", "Mul", ("field", pt, 1), T))
         rep.check(ok, R4, f.key, "block-decoders-ascending", f.loc(),
-                  "Decoder::new creates block decoders 0..ZL with KL*T bytes, then ZL..ZL+ZS with KS*T bytes, numbered by the loop index",
-                  {"events": loops.render(ls)[:400]}, cfg)
+                  "Decoder::new creates block decoders 0..ZL with KL*T bytes, then ZL..ZL+ZS with KS*T bytes, numbered by position",
+                  det, cfg)
 
 
 # ---------------------------------------------------------------------------
